@@ -305,7 +305,14 @@ def gen_relhead(rng):
             c2 = rng.uniform(15, 45)
             L.append(f"require (distance to other) <= {_f(c2)}")
             dname += "+le"
-    return "\n".join(L) + "\n", {"family": "relhead", "rh_form": name, "dist_form": dname, "vis": vis, "z": bool(z), "near_pi": near_pi, "noise": noise}
+    third = False
+    if rng.random() < 0.4:
+        # a third object with a much tighter distance bound than the one on `other`: bounds on different targets
+        # must not be mixed up when the cells of `other` are buffered
+        third = True
+        L.append("third = new Object in union, facing vf, with allowCollisions True")
+        L.append(f"require (distance to third) <= {_f(rng.uniform(5, 12))}")
+    return "\n".join(L) + "\n", {"family": "relhead", "rh_form": name, "dist_form": dname, "vis": vis, "z": bool(z), "near_pi": near_pi, "noise": noise, "third": third}
 
 
 def gen_visibility(rng):
